@@ -574,6 +574,12 @@ func DiffResponse(ref, got *lab.RawResponse, looseFraming bool) string {
 	if !bytes.Equal(ref.Body, got.Body) {
 		return fmt.Sprintf("body: %d bytes without size_limit, %d bytes with it (first difference at %d)", len(ref.Body), len(got.Body), firstDiff(ref.Body, got.Body))
 	}
+	if fmt.Sprint(ref.Interim) != fmt.Sprint(got.Interim) {
+		return fmt.Sprintf("interim responses: %v without size_limit, %v with it", ref.Interim, got.Interim)
+	}
+	if d := lab.DiffHeaders(headerMap(ref.Trailer), headerMap(got.Trailer), nil); d != "" {
+		return "trailer fields with size_limit vs without: " + strings.ReplaceAll(strings.ReplaceAll(d, "sent", "without"), "received", "with")
+	}
 	return ""
 }
 
